@@ -338,7 +338,7 @@ the identifiers at elaboration time). -/
 theorem cited_theorems_exist :
     Inventory.citedHere.all (· ∈ thm_names% [parseISO8601_never_panics, parseKey_never_panics,
       parseSymmetric_never_panics, chainLoop_never_panics, hookChain_never_panics,
-      decodeString_never_panics, normalize_never_panics]) = true := by decide +kernel
+      decodeString_never_panics, normalize_never_panics, decodeCertificates_terminates]) = true := by decide +kernel
 
 /-- The two documented programmer-misuse panics that live in the anchored files (`NewParser` with
 two optionals, `cipher.AEAD` `Seal`/`Open` with a wrong-size nonce) are in the table as such, and
